@@ -88,6 +88,12 @@ func Generate(seed uint64, n int, tier, corpusDir string, shard int, out *kit.Ou
 		{Init: -1, Prog: []string{"putbig:7"}, Readers: [][]string{{"get", "get"}, {"get", "ttlget"}}},
 		{Init: 1, Prog: []string{"put:2", "putbig:3", "put:4"}, Readers: [][]string{{"get", "get"}, {"ttlget", "get"}}},
 		{Init: 0, Prog: []string{"putbig:1", "del", "putbig:2"}, Readers: [][]string{{"get", "get"}, {"get"}, {"ttlget", "get"}}},
+		// programs with a TTL write and clock steps ("C") anywhere in the schedule (an expired entry dropped by
+		// TTLGet under a read in flight is finding C07-EXPDEL)
+		{Init: 0, Prog: []string{"cast:1"}, Readers: [][]string{{"get"}, {"ttlget"}, {"get", "ttlget"}}},
+		{Init: -1, Prog: []string{"inst:1", "inst:2"}, Readers: [][]string{{"ttlget", "get"}, {"ttlget", "ttlget"}}},
+		{Init: 5, Prog: []string{"put:6", "cast:7", "put:8"}, Readers: [][]string{{"get", "ttlget"}, {"ttlget", "get"}}},
+		{Init: 3, Prog: []string{"del", "inst:4", "putbig:5"}, Readers: [][]string{{"get", "get"}, {"ttlget"}, {"ttlget"}}},
 	}
 	for i := 0; i < n-nSeq-nBig-nX; i++ {
 		cr := r.Fork()
